@@ -33,11 +33,16 @@ Definition inN (N: list origin) (o: origin) : bool := existsb (origin_eqb o) N.
 (* runtime container kinds (class of the object); carried for the correspondence,
    irrelevant for the theorems *)
 Inductive kind := KList | KSet | KFrozenSet | KDeque | KTuple
-                | KDict | KOrderedDict | KDefaultDict | KCounter.
+                | KDict | KOrderedDict | KDefaultDict | KCounter | KChainMap.
 
 Inductive leafk := LDate | LDecimal | LBytearray.
 
 (* ------------------------------------------------------------------ *)
+(* what a dataclass field falls back to when its key is absent from the decoder's input *)
+Inductive dflt :=
+| DAtom                      (* an immutable default value *)
+| DFresh (k: kind).          (* default_factory=list / dict / set / deque / OrderedDict: a new empty container per call *)
+
 Inductive ty :=
 | TAtom                                  (* int float bool str None-type: packer is the identity *)
 | TLeaf (k: leafk)                       (* leaf with a conversion (isoformat / str / b64) *)
@@ -52,7 +57,13 @@ Inductive ty :=
 | TWrap (t: ty)                          (* Final[t], Annotated[t, ..], NewType over t, PEP 695 alias of t,
                                             Required/NotRequired/ReadOnly[t]: unwrapped and re-dispatched *)
 | TUnion (ts: list ty)                   (* Union / constrained TypeVar *)
-| TNone.                                 (* NoneType as a union member *)
+| TNone                                  (* NoneType as a union member *)
+| TLit                                   (* Literal[...] of int / str values: a generated helper returns the value *)
+| TAbsent (d: dflt)                      (* decode only: a defaulted field whose key is absent from this input *)
+| TComp (k: kind) (t: ty)                (* a sequence-like object of class k that is always rebuilt item by item:
+                                            ChainMap[K, V] = TComp KChainMap (TRMap K V) over its .maps *)
+| TRMap (kt vt: ty)                      (* a mapping that is always rebuilt by a comprehension (a map of a ChainMap) *)
+| TRec (ts: list ty).                    (* TypedDict with these (present) keys: rebuilt key by key into a new dict *)
 
 Inductive lv :=
 | VAtom (z: Z)
@@ -106,6 +117,8 @@ Inductive ir :=
 | IMapComp (ke ve: ir)             (* {ke: ve for key, value in x.items()} *)
 | ITup (es: list ir)               (* [e0(x[0]), e1(x[1]), ...] *)
 | ICall (c: nat) (fw: bool)        (* x.__mashumaro_to_dict__(dialect=dialect if fw) *)
+| IRec (es: list ir)               (* TypedDict packer: d = {}; d[k_i] = e_i(value[k_i]); return d *)
+| ILit                             (* call of the generated literal packer: returns the value, raises otherwise *)
 | IUnion (idc: list nat) (es: list ir).
      (* union packer method (pack.py pack_union): `if value.__class__ in idc: return value` for the
         members whose packer is the bare name, then `try: return e` for the other members in
@@ -116,7 +129,8 @@ Definition is_id (e: ir) : bool := match e with IId => true | _ => false end.
 (* class tags: what `value.__class__ is <origin of the member>` compares *)
 Definition kcode (k: kind) : nat :=
   match k with KList => 10 | KSet => 11 | KFrozenSet => 12 | KDeque => 13 | KTuple => 14
-             | KDict => 15 | KOrderedDict => 16 | KDefaultDict => 17 | KCounter => 18 end.
+             | KDict => 15 | KOrderedDict => 16 | KDefaultDict => 17 | KCounter => 18 | KChainMap => 19 end.
+Definition kind_eqb (a b: kind) : bool := Nat.eqb (kcode a) (kcode b).
 (* the concrete class an origin denotes; abstract origins are never the class of a value *)
 Definition ocls (o: origin) : list nat :=
   match o with
@@ -170,6 +184,11 @@ Section Compile.
         if forallb is_id es then IId          (* pack_union: a single "value" packer *)
         else IUnion (flat_map (fun t' => if is_id (cp t') then tid t' else []) ts) es
     | TNone => IId
+    | TLit => ILit
+    | TAbsent _ => IId
+    | TComp _ t' => ISeqComp (cp t')
+    | TRMap kt vt => IMapComp (cp kt) (cp vt)
+    | TRec ts => IRec (map cp ts)
     end.
 End Compile.
 
@@ -239,6 +258,7 @@ Fixpoint accepts (v: lv) {struct v} : ir -> bool :=
   fix on_ir (e: ir) {struct e} : bool :=
     match e with
     | IId | IStr => true
+    | ILit => match v with VAtom _ => true | _ => false end
     | IConv => match v with VLeaf _ => true | _ => false end
     | IOpt e' => match v with VNone => true | _ => on_ir e' end
     | ICopy => match v with
@@ -261,6 +281,11 @@ Fixpoint accepts (v: lv) {struct v} : ir -> bool :=
             (length es <=? length xs) && zip_all accepts es xs
         | _ => false end
     | ICall _ _ => match v with VObj _ _ _ => true | _ => false end
+    | IRec es =>
+        match v with
+        | VMap _ _ kvs => (length es <=? length kvs) &&
+                          zip_all (fun kv e' => match kv with (_, x) => accepts x e' end) es kvs
+        | _ => false end
     | IUnion idc es => in_idc idc v || existsb (fun e' => negb (is_id e') && on_ir e') es
     end.
 
@@ -280,6 +305,15 @@ Section RunPack.
       | IId => (v, n)
       | IConv => match v with VLeaf z => (VAtom z, n) | _ => (v, n) end
       | IStr => match v with VLeaf z => (VAtom z, n) | _ => (VAtom 0, n) end
+      | ILit => (v, n)
+      | IRec es =>
+          match v with
+          | VMap _ _ kvs =>
+              let (ys, n') :=
+                zip_st (fun kv e' m => match kv with (k, x) =>
+                          let (y, m1) := run_pack x call e' m in ((k, y), m1) end) es kvs (S n) in
+              (VMap KDict n ys, n')
+          | _ => (v, n) end
       | IOpt e' => match v with VNone => (VNone, n) | _ => on_ir e' n end
       | ICopy =>
           match v with
@@ -336,7 +370,7 @@ End RunPack.
    Any, wrapped and NewType members are compared by objects that are never the class of a value) *)
 Definition union_member_ok (t: ty) : bool :=
   match t with
-  | TAtom | TNone | TLeaf _ | TPass | TSeq _ _ | TTupV _ | TTup _ | TMap _ _ _ | TDC _ => true
+  | TAtom | TNone | TLeaf _ | TPass | TSeq _ _ | TTupV _ | TTup _ | TMap _ _ _ | TDC _ | TLit => true
   | _ => false end.
 
 (* runtime classes a value at a position of the given origin may have (abstract origins admit the
@@ -382,6 +416,19 @@ Section Conf.
       | TWrap t' => on_ty t'
       | TUnion ts => forallb union_member_ok ts && existsb on_ty ts
       | TNone => match v with VNone => true | _ => false end
+      | TLit => match v with VAtom _ => true | _ => false end
+      | TAbsent _ => false
+      | TComp k t' =>
+          match v with VSeq k' _ xs => kind_eqb k k' && forallb (fun x => conforms x t') xs | _ => false end
+      | TRMap kt vt =>
+          match v with
+          | VMap _ _ kvs => forallb (fun kv => match kv with (k, x) => conforms k kt && conforms x vt end) kvs
+          | _ => false end
+      | TRec ts =>
+          match v with
+          | VMap _ _ kvs => zip_all (fun kv t' => match kv with (k, x) =>
+                                       match k with VAtom _ => conforms x t' | _ => false end end) ts kvs
+          | _ => false end
       end.
 End Conf.
 
@@ -441,7 +488,8 @@ Section ConvFree.
     | TTupV _ | TTup _ | TDC _ => false
     | TWrap t' => conv_free t'
     | TUnion ts => forallb conv_free ts
-    | TNone => true
+    | TNone | TLit | TAbsent _ => true
+    | TComp _ _ | TRMap _ _ | TRec _ => false
     end.
 
   (* the generator's test: the element expression is the bare name *)
@@ -492,7 +540,18 @@ Section ByRef.
           | _ => [] end
       | TWrap t' => on_ty t'
       | TUnion ts => pick (fun t' => conforms E v t') on_ty [] ts     (* the member the value belongs to *)
-      | TNone => []
+      | TNone | TLit | TAbsent _ => []
+      | TComp _ t' =>
+          match v with VSeq _ _ xs => flat_map (fun x => byref x call N hsup t') xs | _ => [] end
+      | TRMap kt vt =>
+          match v with
+          | VMap _ _ kvs => flat_map (fun kv => match kv with (k, x) =>
+                                        byref k call N hsup kt ++ byref x call N hsup vt end) kvs
+          | _ => [] end
+      | TRec ts =>
+          match v with
+          | VMap _ _ kvs => zip_app (fun kv t' => match kv with (_, x) => byref x call N hsup t' end) ts kvs
+          | _ => [] end
       end.
 End ByRef.
 
@@ -519,7 +578,7 @@ Section UDet.
     fun call N hsup =>
     fix on_ty (t: ty) {struct t} : bool :=
       match t with
-      | TAtom | TLeaf _ | TAny | TPass | TNone => true
+      | TAtom | TLeaf _ | TAny | TPass | TNone | TLit | TAbsent _ => true
       | TOpt t' => match v with VNone => true | _ => on_ty t' end
       | TWrap t' => on_ty t'
       | TSeq _ t' | TTupV t' =>
@@ -544,6 +603,17 @@ Section UDet.
           let inid := in_idc (flat_map (fun t' => if is_id (cp E N hsup t') then tid t' else []) ts) v in
           ugo (fun t' => conforms E v t') (fun t' => is_id (cp E N hsup t'))
               (fun t' => accepts v (cp E N hsup t')) on_ty allid inid ts
+      | TComp _ t' =>
+          match v with VSeq _ _ xs => forallb (fun x => udet x call N hsup t') xs | _ => true end
+      | TRMap kt vt =>
+          match v with
+          | VMap _ _ kvs => forallb (fun kv => match kv with (k, x) =>
+                                       udet k call N hsup kt && udet x call N hsup vt end) kvs
+          | _ => true end
+      | TRec ts =>
+          match v with
+          | VMap _ _ kvs => zip_all (fun kv t' => match kv with (_, x) => udet x call N hsup t' end) ts kvs
+          | _ => true end
       end.
 End UDet.
 
@@ -558,7 +628,9 @@ Inductive uir :=
 | UMap (k: kind) (ke ve: uir)      (* {..}, OrderedDict({..}), defaultdict(f, {..}), Counter({..}) *)
 | UTup (es: list uir)              (* tuple([e0(x[0]), ...]) *)
 | UCall (c: nat)                   (* C.__mashumaro_from_dict__(value) *)
-| UUnion (ms: list (nat * uir)).   (* union method: the member whose wire class fits decodes the value *)
+| UUnion (ms: list (nat * uir))    (* union method: the member whose wire class fits decodes the value *)
+| URec (es: list uir)              (* TypedDict unpacker: a new dict, key by key *)
+| UDefault (d: dflt).              (* key absent: the constructor supplies the default / calls the factory *)
 
 (* wire classes by which the members of a union are told apart: scalars are matched by
    exact type, a mapping is not iterated as a list (.items()), a list has no .items() *)
@@ -572,8 +644,11 @@ Fixpoint tcls (t: ty) : nat :=
   | TSeq _ _ | TTupV _ | TTup _ => 2
   | TMap _ _ _ | TDC _ => 3
   | TAny | TPass => 9          (* accepts everything *)
-  | TUnion _ => 7              (* typing flattens nested unions: never a direct member *)
+  | TUnion _ | TAbsent _ => 7  (* typing flattens nested unions: never a direct member *)
   | TNone => 1
+  | TLit => 0
+  | TComp _ _ => 2
+  | TRMap _ _ | TRec _ => 3
   end.
 Definition cls_fits (c: nat) (w: lv) : bool := Nat.eqb c 9 || Nat.eqb c (wcls w).
 
@@ -606,7 +681,11 @@ Fixpoint cu (t: ty) : uir :=
   | TDC c => UCall c
   | TWrap t' => cu t'
   | TUnion ts => UUnion (map (fun t' => (tcls t', cu t')) ts)
-  | TNone => UAtom
+  | TNone | TLit => UAtom
+  | TAbsent d => UDefault d
+  | TComp k t' => USeq k (cu t')
+  | TRMap kt vt => UMap KDict (cu kt) (cu vt)
+  | TRec ts => URec (map cu ts)
   end.
 
 Section RunUnpack.
@@ -655,6 +734,21 @@ Section RunUnpack.
           pick (fun ce : nat * uir => match ce with (c, _) => cls_fits c w end)
                (fun ce : nat * uir => match ce with (_, e') => on_ir e' n end)
                (VNone, n) ms
+      | URec es =>
+          match w with
+          | VMap _ _ kvs =>
+              let (ys, n') :=
+                zip_st (fun kv e' m => match kv with (k0, x) =>
+                          let (y, m1) := run_unpack x e' m in ((k0, y), m1) end) es kvs (S n) in
+              (VMap KDict n ys, n')
+          | _ => (w, n) end
+      | UDefault d =>
+          match d with
+          | DAtom => (VAtom 0, n)
+          | DFresh k => match k with
+                        | KDict | KOrderedDict | KDefaultDict | KCounter => (VMap k n [], S n)
+                        | _ => (VSeq k n [], S n) end
+          end
       end.
 
   (* wire conformance: the basic form a decoder of type t accepts *)
@@ -682,6 +776,18 @@ Section RunUnpack.
       | TWrap t' => on_ty t'
       | TUnion ts => pick (fun t' => cls_fits (tcls t') w) on_ty false ts
       | TNone => match w with VNone => true | _ => false end
+      | TLit => match w with VAtom _ => true | _ => false end
+      | TAbsent _ => true
+      | TComp _ t' => match w with VSeq _ _ xs => forallb (fun x => wconforms x t') xs | _ => false end
+      | TRMap kt vt =>
+          match w with
+          | VMap _ _ kvs => forallb (fun kv => match kv with (k, x) => wconforms k kt && wconforms x vt end) kvs
+          | _ => false end
+      | TRec ts =>
+          match w with
+          | VMap _ _ kvs => zip_all (fun kv t' => match kv with (k, x) =>
+                                       match k with VAtom _ => wconforms x t' | _ => false end end) ts kvs
+          | _ => false end
       end.
 
   (* input sub-values at Any / pass_through positions *)
@@ -708,7 +814,16 @@ Section RunUnpack.
           | _ => [] end
       | TWrap t' => on_ty t'
       | TUnion ts => pick (fun t' => cls_fits (tcls t') w) on_ty [] ts
-      | TNone => []
+      | TNone | TLit | TAbsent _ => []
+      | TComp _ t' => match w with VSeq _ _ xs => flat_map (fun x => anyref x t') xs | _ => [] end
+      | TRMap kt vt =>
+          match w with
+          | VMap _ _ kvs => flat_map (fun kv => match kv with (k, x) => anyref k kt ++ anyref x vt end) kvs
+          | _ => [] end
+      | TRec ts =>
+          match w with
+          | VMap _ _ kvs => zip_app (fun kv t' => match kv with (_, x) => anyref x t' end) ts kvs
+          | _ => [] end
       end.
 End RunUnpack.
 
